@@ -1524,7 +1524,11 @@ void readin (void)
 	}
 	if (real_reject)
 		visible_define ( "M4_MODE_REAL_REJECT");
-	if (ctrl.reject_really_used)
+	/* The find_rule label is jumped to by yyreject() and by the matching
+	 * of variable trailing context; the latter does not go away when the
+	 * user says %option noreject.
+	 */
+	if (ctrl.reject_really_used || variable_trailing_context_rules)
 		visible_define ( "M4_MODE_FIND_ACTION_REJECT_REALLY_USED");
 	if (reject)
 		visible_define ( "M4_MODE_USES_REJECT");
